@@ -120,11 +120,14 @@ impl Op {
         }
         // A user defined macro?
         else if let Ok(macro_definition) = ctx.get_resource(&name) {
-            // search for whitespace-delimited "inv" in order to avoid matching
-            // tokens *containing* inv (INVariant, subINVolution, and a few other
-            // pathological cases)
+            // Look the "inv" modifier up among the tokenized parameters, as is done
+            // for elementary operators: It may be given in any position (including
+            // as a prefix), and also in the form "inv=true"
             let def = &parameters.definition;
-            let inverted = def.contains(" inv ") || def.ends_with(" inv");
+            let inverted = def
+                .split_into_parameters()
+                .get("inv")
+                .is_some_and(|v| v.is_empty() || v.to_lowercase() == "true");
             let mut next_param = parameters.next(def);
             next_param.definition = macro_definition;
             return Op::op(next_param, ctx)?.handle_inversion(inverted);
